@@ -55,6 +55,7 @@ META = {
 
 
 KNOWN_F32 = "K-C06-f32-small-magnitude-spelling"
+KNOWN_F32_LARGE = "K-C06-f32-large-magnitude-spelling"
 
 
 def f32_small(v):
@@ -68,6 +69,20 @@ def f32_small(v):
         return any(f32_small(k) or f32_small(x) for k, x in v.pairs)
     if isinstance(v, (list, tuple)):
         return any(f32_small(x) for x in v)
+    return False
+
+
+def f32_large(v):
+    """Known class, the other end of the same mechanism: a 32-bit float with 1e13 <= |x| < 1e16 (ryu spells such an f32 in
+    exponent form, 1e14, and the same number as an f64 positionally, 100000000000000.0)."""
+    if isinstance(v, gen.F32):
+        return 1e13 <= abs(v.value) < 1e16
+    if isinstance(v, dict):
+        return any(f32_large(x) for x in v.values())
+    if isinstance(v, gen.Map):
+        return any(f32_large(k) or f32_large(x) for k, x in v.pairs)
+    if isinstance(v, (list, tuple)):
+        return any(f32_large(x) for x in v)
     return False
 
 
@@ -107,7 +122,7 @@ def run_oracle(outcome, tier, seed):
             reqs2.append({"id": base + 1, "to": a, "calls": [{"input": out, "from": b, "mode": mode, "sched": sched}]})
             plans2.append((a, b, v, t, ab, aa, mode, sched, base))
     r2 = common.harness_batch(reqs2, timeout=1800)
-    idem, trips, known_hits = 0, 0, 0
+    idem, trips, known_hits, known_large = 0, 0, 0, 0
     for a, b, v, t, ab, aa, mode, sched, base in plans2:
         bb, ba = shared.session_result(r2[base]), shared.session_result(r2[base + 1])
         info = {"A": a, "B": b, "mode_of_second_hop": mode, "sched": sched, "input_hex": shared.hx(t)[:2000], "value": repr(v)[:400],
@@ -115,6 +130,8 @@ def run_oracle(outcome, tier, seed):
         idem += 1
         if (bb[0] != "ok" or bb[2] != ab[2]) and b in ("json", "yaml") and f32_small(v):
             known_hits += 1
+        elif bb[0] == "ok" and bb[2] != ab[2] and b in ("json", "yaml") and f32_large(v):
+            known_large += 1
         elif bb[0] != "ok" or bb[2] != ab[2]:
             outcome.oracle_failures.append(dict(info, what="xt's %s output is not a fixed point of xt (%s -> %s does not reproduce it byte for byte)" % (b, b, b),
                                                 B_to_B=[bb[0], bb[1][:200], bb[2][:1500]]))
@@ -153,7 +170,9 @@ def run_oracle(outcome, tier, seed):
             outcome.notes.append("listed finding %s no longer reproduces on its witness" % k["id"])
     if known_hits and KNOWN_F32 not in {k["id"] for k in common.load_known("C06")}:
         outcome.oracle_failures.append({"what": "unlisted defect class " + KNOWN_F32})
-    outcome.extra["known_class_hits"] = {KNOWN_F32: known_hits}
+    if known_large and KNOWN_F32_LARGE not in {k["id"] for k in common.load_known("C06")}:
+        outcome.oracle_failures.append({"what": "unlisted defect class " + KNOWN_F32_LARGE})
+    outcome.extra["known_class_hits"] = {KNOWN_F32: known_hits, KNOWN_F32_LARGE: known_large}
 
 
 def run(outcome, tier, seed):
